@@ -300,6 +300,8 @@ func TestC15Binary(t *testing.T) {
 			ws, err := p.dial(carriers, tok)
 			if err == nil {
 				ws.Close()
+			} else if !strings.Contains(err.Error(), "bad status") {
+				rt.Skip("transport problem during the upgrade (not a refusal): inconclusive") // a refusal is an HTTP status other than 101
 			}
 			method := pick(rt, "method", []string{"POST", "POST", "POST", "OPTIONS", "OPTIONS", "GET", "PUT", "HEAD", "DELETE", "PATCH"})
 			labels := map[string]int{fmt.Sprintf("registered_%v", registered): 1, fmt.Sprintf("admit_%v", admit): 1, "carrier_" + carrier: 1, "smoke_test_method_" + method: 1}
@@ -367,7 +369,7 @@ var bScenarioClasses = []int32{TSessionState, TJoinBcast, TLeaveBcast, TEntityAd
 
 // bScenario: A and B in one session; B does one of everything; returns the
 // multiset of message types A received and the types B received.
-func bScenario(p *bProc) (a, b []int32, err error) {
+func bScenario(p *bProc, drop map[int32]bool) (a, b []int32, err error) {
 	tok := p.validToken()
 	ts := func() *timestamppb.Timestamp { return timestamppb.Now() }
 	wa, err := p.dial([]string{"header"}, tok)
@@ -382,49 +384,144 @@ func bScenario(p *bProc) (a, b []int32, err error) {
 	var sid string
 	note := func(dst *[]int32, rxs []Rx) {
 		for _, r := range rxs {
+			if r.ReqID() >= 1000 {
+				continue // answers to the scenario's own polling
+			}
 			*dst = append(*dst, r.T)
 			if jr, ok := r.M.(*hagallpb.ParticipantJoinResponse); ok && sid == "" {
 				sid = jr.SessionId
 			}
 		}
 	}
+	// No step of the scenario relies on elapsed time: after every request of B the scenario waits
+	// (up to 20 s) for the answer at B and for the broadcast A must receive under the flag set in
+	// force; where that broadcast is disabled it polls the state instead. A missing broadcast
+	// therefore shows in the final comparison, a slow machine does not.
+	const patience = 20 * time.Second
+	awaitA := func(class int32) {
+		if !drop[class] {
+			rx, _ := wsUntil(wa, class, patience)
+			note(&a, rx)
+		}
+	}
 	wsSend(wa, &hagallpb.ParticipantJoinRequest{Type: TJoinReq, Timestamp: ts(), RequestId: 1})
-	rx, ok := wsUntil(wa, TJoinResp, 5*time.Second)
+	rx, ok := wsUntil(wa, TJoinResp, patience)
 	if !ok {
 		return nil, nil, fmt.Errorf("join not answered")
 	}
 	note(&a, rx)
-	wsSend(wa, &hagallpb.EntityComponentTypeAddRequest{Type: TTypeAddReq, Timestamp: ts(), RequestId: 2, EntityComponentTypeName: "t"})
-	rx, _ = wsUntil(wa, TTypeAddResp, 5*time.Second)
-	note(&a, rx)
-	wsSend(wa, &hagallpb.EntityComponentTypeSubscribeRequest{Type: TSubReq, Timestamp: ts(), RequestId: 3, EntityComponentTypeId: 1})
-	rx, _ = wsUntil(wa, TSubResp, 5*time.Second)
-	note(&a, rx)
-	step := func(m proto.Message, want int32) {
-		wsSend(wb, m)
-		if want >= 0 {
-			rx, _ := wsUntil(wb, want, 5*time.Second)
-			note(&b, rx)
+	if !drop[TSessionState] {
+		// (the session state may precede or follow the join response)
+		seen := false
+		for _, t := range a {
+			seen = seen || t == TSessionState
+		}
+		if !seen {
+			awaitA(TSessionState)
 		}
 	}
-	step(&hagallpb.ParticipantJoinRequest{Type: TJoinReq, Timestamp: ts(), RequestId: 10, SessionId: sid}, TJoinResp)
-	step(&hagallpb.EntityAddRequest{Type: TEntityAddReq, Timestamp: ts(), RequestId: 11, Pose: &hagallpb.Pose{Px: 1}}, TEntityAddResp)
-	step(&hagallpb.EntityAddRequest{Type: TEntityAddReq, Timestamp: ts(), RequestId: 12}, TEntityAddResp)
-	step(&hagallpb.EntityUpdatePose{Type: TPose, Timestamp: ts(), EntityId: 1, Pose: &hagallpb.Pose{Px: 2}}, -1)
-	step(&hagallpb.CustomMessage{Type: TCustom, Timestamp: ts(), Body: []byte("x")}, -1)
-	step(&hagallpb.EntityComponentAddRequest{Type: TCompAddReq, Timestamp: ts(), RequestId: 13, EntityComponentTypeId: 1, EntityId: 1, Data: []byte{1}}, TCompAddResp)
-	step(&hagallpb.EntityComponentUpdate{Type: TCompUpdate, Timestamp: ts(), EntityComponentTypeId: 1, EntityId: 1, Data: []byte{2}}, -1)
-	time.Sleep(40 * time.Millisecond) // several frames: pose and component update are processed
-	step(&hagallpb.EntityComponentDeleteRequest{Type: TCompDelReq, Timestamp: ts(), RequestId: 14, EntityComponentTypeId: 1, EntityId: 1}, TCompDelResp)
-	step(&hagallpb.EntityDeleteRequest{Type: TEntityDelReq, Timestamp: ts(), RequestId: 15, EntityId: 1}, TEntityDelResp)
-	step(&hagallpb.Request{Type: TPingReq, Timestamp: ts(), RequestId: 16}, TPingResp)
+	wsSend(wa, &hagallpb.EntityComponentTypeAddRequest{Type: TTypeAddReq, Timestamp: ts(), RequestId: 2, EntityComponentTypeName: "t"})
+	rx, _ = wsUntil(wa, TTypeAddResp, patience)
+	note(&a, rx)
+	wsSend(wa, &hagallpb.EntityComponentTypeSubscribeRequest{Type: TSubReq, Timestamp: ts(), RequestId: 3, EntityComponentTypeId: 1})
+	rx, _ = wsUntil(wa, TSubResp, patience)
+	note(&a, rx)
+	step := func(m proto.Message, want int32, bcast int32) {
+		wsSend(wb, m)
+		if want >= 0 {
+			rx, _ := wsUntil(wb, want, patience)
+			note(&b, rx)
+		}
+		if bcast >= 0 {
+			awaitA(bcast)
+		}
+	}
+	pollReq := uint32(1000)
+	// componentData polls (as B) until the listed data of component (1,1) is want
+	componentData := func(want byte) {
+		for i := 0; i < 400; i++ {
+			pollReq++
+			wsSend(wb, &hagallpb.EntityComponentListRequest{Type: TCompListReq, Timestamp: ts(), RequestId: pollReq, EntityComponentTypeId: 1})
+			rxs, ok := wsUntil(wb, TCompListResp, patience)
+			note(&b, rxs)
+			if ok {
+				if lr, ok2 := rxs[len(rxs)-1].M.(*hagallpb.EntityComponentListResponse); ok2 {
+					for _, c := range lr.EntityComponents {
+						if c.EntityId == 1 && len(c.Data) == 1 && c.Data[0] == want {
+							return
+						}
+					}
+				}
+			}
+			time.Sleep(10 * time.Millisecond)
+		}
+	}
+	step(&hagallpb.ParticipantJoinRequest{Type: TJoinReq, Timestamp: ts(), RequestId: 10, SessionId: sid}, TJoinResp, TJoinBcast)
+	step(&hagallpb.EntityAddRequest{Type: TEntityAddReq, Timestamp: ts(), RequestId: 11, Pose: &hagallpb.Pose{Px: 1}}, TEntityAddResp, TEntityAddBcast)
+	step(&hagallpb.EntityAddRequest{Type: TEntityAddReq, Timestamp: ts(), RequestId: 12}, TEntityAddResp, TEntityAddBcast)
+	step(&hagallpb.CustomMessage{Type: TCustom, Timestamp: ts(), Body: []byte("x")}, -1, TCustomBcast)
+	step(&hagallpb.EntityComponentAddRequest{Type: TCompAddReq, Timestamp: ts(), RequestId: 13, EntityComponentTypeId: 1, EntityId: 1, Data: []byte{1}}, TCompAddResp, TCompAddBcast)
+	// pose and component update are released by the same frame, the pose first
+	step(&hagallpb.EntityUpdatePose{Type: TPose, Timestamp: ts(), EntityId: 1, Pose: &hagallpb.Pose{Px: 2}}, -1, -1)
+	step(&hagallpb.EntityComponentUpdate{Type: TCompUpdate, Timestamp: ts(), EntityComponentTypeId: 1, EntityId: 1, Data: []byte{2}}, -1, -1)
+	awaitA(TPoseBcast)
+	awaitA(TCompUpdateBcast)
+	componentData(2) // both have been processed (whatever the flags)
+	step(&hagallpb.EntityComponentDeleteRequest{Type: TCompDelReq, Timestamp: ts(), RequestId: 14, EntityComponentTypeId: 1, EntityId: 1}, TCompDelResp, TCompDelBcast)
+	step(&hagallpb.EntityDeleteRequest{Type: TEntityDelReq, Timestamp: ts(), RequestId: 15, EntityId: 1}, TEntityDelResp, TEntityDelBcast)
+	step(&hagallpb.Request{Type: TPingReq, Timestamp: ts(), RequestId: 16}, TPingResp, -1)
 	wb.Close() // leaves: entity 2 is removed, leave broadcast
+	awaitA(TEntityDelBcast)
+	awaitA(TLeaveBcast)
+	if drop[TLeaveBcast] {
+		// nothing tells A that B has gone: poll until B's entity 2 no longer exists (a component
+		// cannot be added to it any more), then leave the leaver a moment to finish
+		for i := 0; i < 400; i++ {
+			pollReq++
+			wsSend(wa, &hagallpb.EntityComponentAddRequest{Type: TCompAddReq, Timestamp: ts(), RequestId: pollReq, EntityComponentTypeId: 1, EntityId: 2, Data: []byte{9}})
+			rxs, _ := wsUntilAnyOf(wa, patience, TCompAddResp, TError)
+			gone := false
+			for _, r := range rxs {
+				if r.ReqID() == pollReq && r.T == TError {
+					gone = true
+				}
+			}
+			note(&a, rxs)
+			if gone {
+				break
+			}
+			pollReq++
+			wsSend(wa, &hagallpb.EntityComponentDeleteRequest{Type: TCompDelReq, Timestamp: ts(), RequestId: pollReq, EntityComponentTypeId: 1, EntityId: 2})
+			rxs, _ = wsUntilAnyOf(wa, patience, TCompDelResp, TError)
+			note(&a, rxs)
+			time.Sleep(10 * time.Millisecond)
+		}
+		time.Sleep(100 * time.Millisecond)
+	}
 	// A: a final ping as a barrier
-	time.Sleep(30 * time.Millisecond)
 	wsSend(wa, &hagallpb.Request{Type: TPingReq, Timestamp: ts(), RequestId: 4})
-	rx, _ = wsUntil(wa, TPingResp, 5*time.Second)
+	rx, _ = wsUntil(wa, TPingResp, patience)
 	note(&a, rx)
 	return a, b, nil
+}
+
+// wsUntilAnyOf reads until a message of one of the wanted types arrives; returns everything seen.
+func wsUntilAnyOf(ws *websocket.Conn, d time.Duration, want ...int32) ([]Rx, bool) {
+	var seen []Rx
+	deadline := time.Now().Add(d)
+	for time.Now().Before(deadline) {
+		r, err := wsRecv(ws, time.Until(deadline))
+		if err != nil {
+			return seen, false
+		}
+		seen = append(seen, r)
+		for _, w := range want {
+			if r.T == w {
+				return seen, true
+			}
+		}
+	}
+	return seen, false
 }
 
 func sortedTypes(l []int32, drop map[int32]bool) []string {
@@ -445,7 +542,7 @@ func TestC17Binary(t *testing.T) {
 	if err != nil {
 		t.Skipf("inconclusive: %v", err)
 	}
-	a0, b0, err := bScenario(base)
+	a0, b0, err := bScenario(base, nil)
 	base.stop()
 	if err != nil {
 		t.Skipf("inconclusive: %v", err)
@@ -475,17 +572,17 @@ func TestC17Binary(t *testing.T) {
 		if err != nil {
 			rt.Skip("binary did not start")
 		}
-		a, b, err := bScenario(p)
-		alive := p.alive()
-		p.stop()
-		if err != nil {
-			rt.Skip("scenario did not complete")
-		}
 		drop := map[int32]bool{}
 		for _, f := range flags {
 			if c, ok := flagClass[f]; ok {
 				drop[c] = true
 			}
+		}
+		a, b, err := bScenario(p, drop)
+		alive := p.alive()
+		p.stop()
+		if err != nil {
+			rt.Skip("scenario did not complete")
 		}
 		col.Case(fmt.Sprint(flags), mask != 0, map[string]int{fmt.Sprintf("flags_%d", popcount(mask)): 1}, func() any { return flags })
 		if !alive {
